@@ -241,7 +241,7 @@ def run(ctx):
     pf = probe_trigger_outlives_machine()
     if pf:
         ctx.violation(ctx.write_replay("trigger_outlives_machine.txt", "\n".join(pf) + "\n"), pf[0])
-    engine_check(ctx, PROFILE, 800, 20000, nontrivial, monitor=monitor, tag="C13s", mutate=mutate)
+    engine_check(ctx, PROFILE, 800, 20000, nontrivial, monitor=monitor, tag="C13s", mutate=mutate, share=0.62)
     cov1 = dict(ctx.coverage)
     engine_check(ctx, PROFILE_ASYNC, 250, 8000, nontrivial, monitor=monitor, tag="C13a", mutate=mutate)
     for k in ("evaluations", "distinct_nontrivial", "traces_validated_against_impl", "disagreements", "monitor_failures"):
